@@ -68,6 +68,10 @@ def parse_nt(*a, **k):
         return _parse(*a, **k)
 
 
+from vlib import fakeos
+fakeos.complete(FakeOS, FakePath)
+
+
 class patched(object):
     def __enter__(self):
         self.old = (sm.getmtime, sm.__dict__.get('open'), Project.get_path)
